@@ -11,7 +11,7 @@ MANIFEST = {
             '(powers of 26, first/last rows and columns) in every listed spelling ($ markers, case, A1/R1C1/R[..]C[..] from three host cells, '
             'redundant X:X, whole row/column forms, sheet and workbook qualification incl. quoting, case and numeric links), all legal sheet names '
             'of length <= 2 (thorough 3) over an 8-symbol alphabet and defined names in three cases are resolved by the real tokeniser; '
-            'equal (book, sheet, rectangle) must give equal ids, different ones different ids, ids must read back, fast paths must agree with the general resolver; relative references are also resolved through cells built one after the other with one shared context mapping. Workbook qualification is enumerated over 11 file names (digit-first, blanks, dots) x 4 directories x 4 sheet names.',
+            'equal (book, sheet, rectangle) must give equal ids, different ones different ids, ids must read back, fast paths must agree with the general resolver; relative references are also resolved through cells built one after the other with one shared context mapping. Workbook qualification is enumerated over 11 file names (digit-first, blanks, dots) x 4 directories x 4 sheet names.' ' Later additions: at model level, name keys in any letter case, workbooks loaded through non-normal relative and absolute paths (one node per cell), one rectangle spelled twice in one formula, defined names (also chained) as range end points.',
     'note': 'Relational oracle: needs no knowledge of the canonical form. Reversed corners, RC without brackets and the R1C1 whole row/column forms C1:C2 / R1:R2 (ambiguous with A1 cells) are excluded.',
 }
 RULE = 'boundary-set products; non-trivial = spelling resolved by the tokeniser; distinct = case key'
